@@ -7,7 +7,7 @@
              vs the extracted SPEC wind_script and the extracted generated function
    (K-outer) control scripts of the DSL of coq/C06/Defs.v printed as Scheme programs, run by the scratch
              chibi-scheme; the event trace is compared with the extracted machine's (coq/C06/Machine.v)."""
-import itertools, os, shlex
+import itertools, os, shlex, time
 from vlib import build as B, scm
 
 FUEL = 1000
@@ -390,7 +390,7 @@ def travel_cases(ctx, exe, d):
             exprs.append("(c06-run %s %d %d)" % (spec, a, b))
             meta.append((hs, a, b, depth))
     mo = ctx.run_model(exe, reqs)
-    io, _hard = run_chibi(d, exprs, prelude_extra=TRAVEL_PRELUDE, timeout=30, chunk=500)
+    io, _hard = run_chibi(d, exprs, prelude_extra=TRAVEL_PRELUDE, timeout=90, chunk=500)
     io += [None] * (len(exprs) - len(io))
     for j, (e, i, m) in enumerate(zip(exprs, io, meta)):
         spec_s, gen_s = mo[2 * j], mo[2 * j + 1]
@@ -410,6 +410,77 @@ def travel_cases(ctx, exe, d):
     if exprs:
         ctx.sample(dict(kind="travel-to-point!", request=reqs[-2], spec=mo[-2], generated=mo[-1], impl=io[-1]))
 
+
+
+
+# ------------------------------------------------------------------------------------------------ K-inner: the stack copy of call/cc
+def stack_cases(ctx, exe, d):
+    """sexp_save_stack / sexp_restore_stack (vm.c:890-913, exposed by fixes/hook-C06-stack.patch) on generated stacks
+    vs the extracted coq/C06/StackModel.v; oracle for a disagreement: save = the first `to` words, restore = the saved
+    words followed by the untouched rest, top = number of saved words"""
+    import subprocess
+    src = os.path.join(os.path.dirname(__file__), "..", "harness", "embed_c06.c")
+    try:
+        emb = B.cc_embed(d, src, os.path.join(d, "embed_c06"))
+    except B.BuildError as e:
+        if "sexp_verif_save_stack" in str(e) or "sexp_verif_restore_stack" in str(e):
+            # tree without fixes/hook-C06-stack.patch: this stream cannot run; the trace correspondence still covers call/cc
+            ctx.assume("stack-copy inner correspondence SKIPPED: fixes/hook-C06-stack.patch is not applied to this tree")
+        else:
+            ctx.broken("hook:C06-stack", "harness/embed_c06.c does not build: %s" % str(e)[-300:])
+        return
+    env = B.chibi_env(d)
+    n_alloc = int(subprocess.run([emb], input="info\n", capture_output=True, text=True, env=env, timeout=30).stdout.split()[0])
+    rng = ctx.rng
+    reqs_c, reqs_m, meta = [], [], []
+
+    def ws(l):
+        return ",".join(str(x) for x in l) if l else "_"
+    for _ in range(300 if not ctx.thorough else 5000):
+        n = rng.choice([0, 1, 2, 3, 5, 8, 13, 40])
+        st = [rng.randrange(1, 100) for _ in range(n)]
+        if rng.random() < 0.5:
+            to = rng.choice([0, 1, n, n + 4, max(0, n - 1), rng.randrange(0, n + 5)])
+            reqs_c.append("save %s %d" % (ws(st), to))
+            reqs_m.append("ssave %d %s %d" % (n_alloc, ws(st), to))
+            meta.append(("save", st, to))
+        else:
+            m = rng.choice([0, 1, 4, 5, n, n + 4, rng.randrange(0, 60), n_alloc - 66, n_alloc - 65, n_alloc - 64, n_alloc - 63])
+            sv = [rng.randrange(100, 200) for _ in range(max(0, m))]
+            reqs_c.append("restore %s %s" % (ws(st), ws(sv)))
+            reqs_m.append("srestore %d %s %s" % (n_alloc, ws(st), ws(sv)))
+            meta.append(("restore", st, sv))
+    r = subprocess.run([emb], input="\n".join(reqs_c) + "\n", capture_output=True, text=True, env=env, timeout=300)
+    co = r.stdout.split("\n")
+    mo = ctx.run_model(exe, reqs_m)
+    if r.returncode != 0 or len(co) < len(reqs_c):
+        ctx.violation("stack-copy:crash", input=reqs_c[min(len(co), len(reqs_c)) - 1], expected="an answer", observed="harness died rc=%s" % r.returncode,
+                      replay="echo '%s' | LD_LIBRARY_PATH=%s %s" % (reqs_c[min(len(co), len(reqs_c)) - 1], d, emb))
+        return
+    for q, c, m, (kind, st, x) in zip(reqs_c, co, mo, meta):
+        ctx.count(1, key=("stack", q), nontrivial=bool(st) and bool(x))
+        ctx.cov["traces_validated_against_impl"] += 1
+        if kind == "save":
+            padded = st + [0] * max(0, x - len(st))
+            want = ws(padded[:x])
+            ok_c, ok_m = (c == want), (m == want)
+        else:
+            k = max(len(st), len(x)) + 2
+            cf = c.split()
+            if len(x) + 64 >= n_alloc:                       # growth path: outside the model; the C side must have grown
+                ok_m = (m == "GROW")
+                ok_c = len(cf) == 3 and int(cf[2]) > n_alloc and cf[0] == str(len(x))
+            else:
+                full = x + (st + [0] * (k + len(x)))[len(x):]
+                want = "%d %s" % (len(x), ws(full[:k]))
+                ok_m = (m == want)
+                ok_c = len(cf) == 3 and "%s %s" % (cf[0], cf[1]) == want and int(cf[2]) == n_alloc
+        if not ok_c:
+            ctx.violation("stack-copy:" + kind, input=q, expected=(want if kind == "save" or len(x) + 64 < n_alloc else "grown stack, top=%d" % len(x)),
+                          observed=c, model=m, replay="echo '%s' | LD_LIBRARY_PATH=%s %s" % (q, d, emb))
+        elif not ok_m:
+            _broken_once(ctx, "correspondence:stack-copy", "StackModel differs from vm.c (C agrees with the oracle): %s model=%s impl=%s" % (q, m, c))
+    ctx.sample(dict(kind="stack-copy", request=reqs_c[-1], model=mo[-1], impl=co[len(reqs_c) - 1], allocated=n_alloc))
 
 
 # ------------------------------------------------------------------------------------------------ escapes through C callbacks
@@ -475,6 +546,7 @@ def callback_escapes(ctx, d, exe=None):
 # ------------------------------------------------------------------------------------------------ main
 def run_scripts(ctx, exe, d, bodies, label):
     """model first (only scripts the machine finishes are sent to chibi), then chibi; compare traces"""
+    t_start = time.time()
     scripts = [wrap(b) for b in bodies]
     mo = ctx.run_model(exe, ["run %d %s" % (FUEL, " ".join(tokens(s))) for s in scripts], timeout=600)
     # the machine over the REGENERATED travel_to_point must agree with the machine over the SPEC script
@@ -492,6 +564,7 @@ def run_scripts(ctx, exe, d, bodies, label):
             if a != b:
                 _broken_once(ctx, "machine-impl-vs-spec", "machine over the regenerated travel_to_point differs from the machine over wind_script on %s: %s vs %s" % (" ".join(tokens(s)), b, a))
                 break
+    t_model = time.time() - t_start
     keep = []
     skipped = dict(fuel=0, uncaught=0)
     for b, s, m in zip(bodies, scripts, mo):
@@ -536,12 +609,12 @@ def run_scripts(ctx, exe, d, bodies, label):
                         model=" ".join("%d:%d" % e for e in evs), impl=io[len(keep) // 2]))
     if len(bad) >= 25 or hard >= 3:
         ctx._c06_stop = True
-    ctx.note("%s: %d scripts, %d compared with chibi, %d skipped (machine out of fuel), %d skipped (uncaught at top), %d differ" % (
-        label, len(bodies), len(keep), skipped["fuel"], skipped["uncaught"], len(bad)))
+    ctx.note("%s: %d scripts, %d compared with chibi, %d skipped (machine out of fuel), %d skipped (uncaught at top), %d differ; %.1fs (model %.1fs)" % (
+        label, len(bodies), len(keep), skipped["fuel"], skipped["uncaught"], len(bad), time.time() - t_start, t_model))
     return len(bad)
 
 
-def run_chibi(d, exprs, prelude_extra="", timeout=10, chunk=250, max_hard=3, stop=False):
+def run_chibi(d, exprs, prelude_extra="", timeout=45, chunk=250, max_hard=3, stop=False, _single=False):
     """like scm.run_cases, but flushes after every case (so a killed process is blamed on the right case),
     uses a short timeout and gives up after max_hard crashes/timeouts.  Returns (results, hard);
     results may be shorter than exprs."""
@@ -575,9 +648,16 @@ def run_chibi(d, exprs, prelude_extra="", timeout=10, chunk=250, max_hard=3, sto
         while n < hi and n in got:
             res.append(got[n])
             n += 1
-        if n < hi:                                   # case n killed the process
-            res.append("TIMEOUT" if rc == "TIMEOUT" else "CRASH rc=%s %s" % (rc, (err or "")[-200:].replace("\n", " | ")))
-            hard += 1
+        if n < hi:                                   # case n killed the process (or the machine is just slow)
+            verdict = "TIMEOUT" if rc == "TIMEOUT" else "CRASH rc=%s %s" % (rc, (err or "")[-200:].replace("\n", " | "))
+            if rc == "TIMEOUT" and not _single:
+                # confirm on its own: a loaded machine must not turn into a false alarm
+                alone, _h = run_chibi(d, [exprs[n]], prelude_extra=prelude_extra, timeout=20, chunk=1, max_hard=1, _single=True)
+                if alone and alone[0] != "TIMEOUT":
+                    verdict = alone[0]
+            res.append(verdict)
+            if verdict == "TIMEOUT" or verdict.startswith("CRASH"):
+                hard += 1
             n += 1
         lo = n
     return res, hard
@@ -644,12 +724,15 @@ def run(ctx):
     c06_travel.regen(ctx)
     c06_shapes.check(ctx)          # the hand-mirrored Scheme definitions still have the mirrored text
     ctx.coq_obligations("Properties_C06")
+    t0 = time.time()
     d = ctx.build("default")
     exe = ctx.extract("C06")
+    ctx.note("coq obligations + build + extraction: %.1fs" % (time.time() - ctx.t0))
     if exe is None:
         return
     rng = ctx.rng
     travel_cases(ctx, exe, d)
+    stack_cases(ctx, exe, d)
     callback_escapes(ctx, d, exe)
     cb = corpus_bodies()
     if cb:
@@ -677,7 +760,7 @@ def run(ctx):
         tp += templates(rng)
     run_scripts(ctx, exe, d, tp, "templates")
     rnd = []
-    for _ in range(2500 if not ctx.thorough else 60000):
+    for _ in range(2500 if not ctx.thorough else 40000):
         rnd.append(gen_random(rng, rng.choice([4, 6, 8, 10, 12, 14, 18, 22]), Fresh()))
     run_scripts(ctx, exe, d, rnd, "random")
     ctx.assume("escapes from inside a before/after thunk are excluded (R7RS leaves them unspecified); thunks only push trace symbols")
